@@ -131,6 +131,8 @@ SCENARIO_TXS = {
     'pause': (['PauseBurningAndMinting', 'UnpauseBurningAndMinting', 'PauseSendingAndReceivingMessages', 'UnpauseSendingAndReceivingMessages'], ''),
     'roles': (ADMIN_ROLE_TXS, 'lifecycle'), 'attesters': (['EnableAttester', 'DisableAttester', 'UpdateSignatureThreshold'], ''),
     'registry': (REGISTRY_TXS, ''),
+    # multi-message transactions: every property that talks about transactions holds of them too
+    'batch': (USER_FLOWS + ADMIN, ''),
 }
 for _pid, _spec in PROPS.items():
     _have = set(sc[0] for sc in _spec['scenarios'])
@@ -145,6 +147,8 @@ for _pid, _spec in PROPS.items():
 PROPS['C15']['scenarios'].append(('genesis', 1200, 8000, ''))
 PROPS['C19']['scenarios'].append(('genesis', 600, 6000, ''))
 PROPS['C20']['scenarios'].append(('genesis', 600, 6000, ''))
+for _pid in ('C18', 'C19', 'C20'):
+    PROPS[_pid]['scenarios'].append(('batch', 1200, 6000, ''))
 PROPS['C18'].setdefault('thorough_reps', 8)
 for _scn, _arg in [('recvmatrix', ''), ('depmatrix', ''), ('replace', ''), ('roles', 'lifecycle'), ('nonces', ''), ('faults', '')]:
     PROPS['C18']['scenarios'].append((_scn, 500, 4000, _arg))
@@ -231,19 +235,32 @@ def mismatch_tags(d, ops, impl, model):
             tags.add('panic')
     elif kind == 'dump':
         ca, cb = O.canon_obs('dump', impl[i]), O.canon_obs('dump', model[i])
-        pk, ps, _ = prev_op(ops, i)
-        after = 'after:%s:%s' % (pk, ps) if ps else 'after:%s' % pk
+        pk, ps, pj = prev_op(ops, i)
+        afters = ['after:%s:%s' % (pk, ps) if ps else 'after:%s' % pk]
+        if pk == 'end':
+            # the state after a multi-message transaction is the state after each of its messages
+            j = pj - 1
+            while j >= 0 and O.op_kind(ops[j])[0] not in ('begin', 'end', 'config'):
+                k2, s2 = O.op_kind(ops[j])
+                if k2 == 'tx':
+                    afters.append('after:tx:%s' % s2)
+                j -= 1
         if ca['store'] != cb['store']:
             ea, eb = O.store_entries(impl[i]), O.store_entries(model[i])
             for k in set(ea) | set(eb):
                 if ea.get(k) != eb.get(k):
                     c = key_class(k)
                     tags.add('store:' + c)
-                    tags.add(after + ':store:' + c)
+                    for after in afters:
+                        tags.add(after + ':store:' + c)
         if ca['ledger'] != cb['ledger']:
-            tags.add('ledger'); tags.add(after + ':ledger')
+            tags.add('ledger')
+            for after in afters:
+                tags.add(after + ':ledger')
         if ca['supply'] != cb['supply']:
-            tags.add('supply'); tags.add(after + ':supply')
+            tags.add('supply')
+            for after in afters:
+                tags.add(after + ':supply')
     elif kind == 'query':
         tags.add('query:' + sub)
         if 'panic' in (O.parse_fields(impl[i]).get('out'), O.parse_fields(model[i]).get('out')):
@@ -293,11 +310,86 @@ def signature(pid, d, ops):
 # ------------------------------------------------------------------------------------------------
 # direct monitors: predicates of the property evaluated on the implementation's own trace
 
+def _demote(line):
+    """the observation of a message inside a transaction that was discarded as a whole: whatever it reported, nothing of
+    it happened (its store writes were made on the branch, and are still subject to C15)."""
+    f = O.parse_fields(line)
+    if f.get('out') != 'ok':
+        return line
+    out = 'out=err #discarded=1'
+    if f.get('writes', '-') not in ('-', ''):
+        out += ' #writes=' + f['writes']
+    if 'doc' in f:
+        out += ' doc=' + f['doc']
+    return out
+
+
+def effective(ops, impl, model):
+    """Multi-message transactions (`begin` .. `end`): the monitors read the trace as the chain experienced it.  Messages of a
+    transaction that was discarded (a later message failed, or the history ends before `end`) count as failed, and the dumps
+    and queries made on its branch are not chain states.  A committed transaction reads as its messages in sequence."""
+    if not any(l.startswith('begin') for l in ops):
+        return ops, impl, model
+    ops2, impl2, model2 = list(ops), list(impl), list(model)
+    n = min(len(ops), len(impl))
+
+    def discard(idx):
+        for j in idx:
+            kind, _ = O.op_kind(ops[j])
+            if kind == 'tx':
+                impl2[j] = _demote(impl[j])
+                if j < len(model2):
+                    model2[j] = _demote(model[j])
+            else:
+                ops2[j] = '# (on the branch of a discarded transaction) ' + ops[j][:60]
+                impl2[j] = '#'
+                if j < len(model2):
+                    model2[j] = '#'
+
+    inner = None
+    for i in range(n):
+        kind, _ = O.op_kind(ops[i])
+        if kind == 'config':
+            inner = None
+        elif kind == 'begin':
+            if inner is None:
+                inner = []
+        elif kind == 'end':
+            if inner is not None:
+                if O.parse_fields(impl[i]).get('out') != 'committed':
+                    discard(inner)
+                inner = None
+        elif inner is not None and kind not in ('', '#', 'sim'):
+            inner.append(i)
+    if inner:
+        discard(inner)
+    return ops2, impl2, model2
+
+
+def cut_after(ops, idx):
+    """where to cut a history so that op `idx` keeps its meaning: after the dump that follows it and, if it sits inside a
+    multi-message transaction, after that transaction's `end` (and the dump after that)."""
+    j = min(len(ops), idx + 2)
+    opened = False
+    for l in ops[:j]:
+        k = O.op_kind(l)[0]
+        if k == 'begin':
+            opened = True
+        elif k in ('end', 'config'):
+            opened = False
+    if opened:
+        while j < len(ops):
+            j += 1
+            if O.op_kind(ops[j - 1])[0] == 'end':
+                return min(len(ops), j + 1)
+    return j
+
+
 def monitor(pid, ops, impl, model):
     f = MONITORS.get(pid)
     if not f:
         return []
-    return f(ops, impl, model)
+    return f(*effective(ops, impl, model))
 
 
 def _kv(opline):
